@@ -93,9 +93,10 @@ def _is_bool(v):
 
 
 class Interp:
-    def __init__(self, symbolic, env=None):
+    def __init__(self, symbolic, env=None, exact=False):
         self.sym = symbolic
         self.env = env
+        self.exact = exact      # float literals as the Fractions they are (shadow run)
         self.n_ops = 0
         self.reflected = False
 
@@ -110,6 +111,8 @@ class Interp:
             c = build_const(pr[1], pr[2])
             if not self.sym and isinstance(c, np.generic):
                 c = c.item()   # plain numbers: Python semantics (numpy does not raise on x/0)
+            if self.exact and isinstance(c, float) and c == c and abs(c) != float("inf"):
+                c = Fraction(c)
             return c
         if tag == "bin":
             a, b = self.run(pr[2]), self.run(pr[3])
@@ -294,6 +297,23 @@ def symbolic_tree(res, prog):
     return tree, it
 
 
+def _ill_conditioned(prog, env, v):
+    """Shadow run with float literals taken as exact rationals: does the plain float
+    result *v* have anything to do with the program's exact value?"""
+    try:
+        ve = Interp(False, env, exact=True).run(prog)
+    except RecursionError:
+        raise
+    except Exception:
+        return True         # exactly: a division by zero or the like
+    if isinstance(ve, (int, Fraction)) and not isinstance(ve, bool):
+        try:
+            return abs(float(ve) - v) > 1e-9 * max(1.0, abs(v))
+        except OverflowError:
+            return True
+    return False
+
+
 def compare_envs(res, prog, tree, env_specs, exact_mode=False):
     """exact_mode: integer environments, where a shortcut (x**0 -> 1) cannot change the
     type of an operand from Fraction to int and with it the type of a later power"""
@@ -322,6 +342,11 @@ def compare_envs(res, prog, tree, env_specs, exact_mode=False):
                      f"plain value {describe(v)}, tree {tree!r} raises "
                      f"{sorted(n for n, _ in ref[1])} at {small}")
             break
+        if not agree(ref[1], v) and isinstance(v, float) and _ill_conditioned(prog, env, v):
+            # the plain float computation is itself far from the exact value of the
+            # program (cancellation followed by a division ...): nothing to compare with
+            res.label("ill-conditioned-float-environment")
+            continue
         if not agree(ref[1], v):
             res.fail("value-mismatch",
                      f"plain value {describe(v)}, tree {tree!r} evaluates to "
